@@ -34,6 +34,7 @@ fn run_case(family: &str, args: &[u128]) -> Vec<u128> {
         "validate" => proto::validate(args),
         "agree_enc" => proto::agree_enc(args),
         "agree_dec" => proto::agree_dec(args),
+        "agree_val" => proto::agree_val(args),
         "agree_ob" => proto::agree_ob(args),
         "history" => history::history(args),
         "serde" => serde_fam::serde_case(args),
